@@ -4,6 +4,16 @@ package txt
 
 // Machine-checked contracts for package txt (comment-only; see klog/contracts_verif.go).
 
+// blank(l): the line consists of spaces and tabs only. (*Line).IsBlank is the definition (trusted contract).
+//@ spec blank(l Line) bool
+
+// A block contains at least one line that is not blank ("exactly a single sequence of significant lines").
+//@ type block invariant exists(i, 0, len(self.lines), !blank(self.lines[i]))
+
+//@ func (*Line).IsBlank
+//@ trusted
+//@ ensures result == blank(*l)
+
 // ---------------------------------------------------------------------------------------------
 // util.go
 
@@ -20,7 +30,7 @@ package txt
 // parseable.go
 
 //@ func NewParseable
-//@ ensures fresh(result) && result != nil && result.PointerPosition == startPointerPosition && len(result.Chars) <= len(l.Text) && implies(len(l.Text) > 0, len(result.Chars) > 0)
+//@ ensures fresh(result) && result != nil && result.PointerPosition == startPointerPosition && len(result.Chars) == runelen(l.Text)
 
 //@ func (*Parseable).Peek
 //@ requires p.PointerPosition >= 0
@@ -67,7 +77,7 @@ package txt
 
 //@ func (*Indentator).NewIndentedParseable
 //@ requires atLevel >= 0
-//@ ensures implies(result != nil, fresh(result) && result.PointerPosition >= 0 && result.PointerPosition == atLevel*len(i.indentationStyle) && result.PointerPosition <= len(l.Text) && len(result.Chars) <= len(l.Text))
+//@ ensures implies(result != nil, fresh(result) && result.PointerPosition >= 0 && result.PointerPosition == atLevel*len(i.indentationStyle) && result.PointerPosition <= len(l.Text) && len(result.Chars) == runelen(l.Text))
 
 // ---------------------------------------------------------------------------------------------
 // block.go
@@ -75,13 +85,18 @@ package txt
 // ParseBlock: every slice expression stays within the text; the consumed byte count never exceeds the text.
 //@ func ParseBlock
 //@ ensures 0 <= result1 && result1 <= len(text)
-//@ ensures implies(nonnil(result0), typeis(result0, *block))
+//@ ensures implies(nonnil(result0), typeis(result0, *block) && fresh(result0) && result0.(*block).precedingLineCount == precedingLineCount)
 //@ loop 1 invariant 0 <= currentLineStart && currentLineStart <= rangepos() && rangepos() <= len(text) && bytesConsumed == currentLineStart
+//@ loop 1 invariant 0 <= currentMode && currentMode <= 2 && implies(currentMode != 0, exists(i, 0, len(lines), !blank(lines[i])))
 //@ loop 1 decreases len(text) - rangepos()
 
 //@ func (*block).SignificantLines
 //@ ensures 0 <= result1 && 0 <= result2 && result1 + result2 <= len(b.lines)
 //@ ensures same(result0, b.lines[result1:len(b.lines)-result2])
+//@ ensures len(result0) >= 1 && !blank(result0[0])
+//@ ensures forall(i, 0, result1, blank(b.lines[i]))
+//@ loop 1 invariant implies(!hasSeenSignificant, forall(i, 0, rangeindex+1, blank(b.lines[i])))
+//@ loop 1 invariant implies(hasSeenSignificant, first <= rangeindex && !blank(b.lines[first]) && forall(i, 0, first, blank(b.lines[i])))
 //@ loop 1 invariant 0 <= first
 //@ loop 1 invariant first <= last
 //@ loop 1 invariant last == len(b.lines)
@@ -89,7 +104,13 @@ package txt
 //@ loop 1 invariant implies(!hasSeenSignificant, first == 0)
 
 // ---------------------------------------------------------------------------------------------
-// error.go: an error refers to an existing line of its block
+// error.go: an error refers to an existing line of its block, and its position and length stay within
+// that line (at most one character past its end). This is the statement of property C10, imposed on every creation.
+
+//@ func NewError
+//@ requires typeis(b, *block) && 0 <= line && line < len(b.(*block).lines)
+//@ requires 0 <= start && 0 <= length && start + length <= runelen(b.(*block).lines[line].Text) + 1
+//@ ensures typeis(result, *err) && fresh(result) && result.(*err).context == b && result.(*err).line == line && result.(*err).position == start && result.(*err).length == length
 
 //@ func (*err).LineText
 //@ requires typeis(e.context, *block) && 0 <= e.line && e.line < len(e.context.(*block).lines)
